@@ -49,9 +49,9 @@ from simkit.rng import seed_globals  # noqa: E402
 from simkit.world import InvalidScenario, Monitor, Violation, result, run_sim, seeded_uuid  # noqa: E402
 
 PROPERTY = "C19"
-RUNS = {"quick": 2500, "thorough": 300_000}
+RUNS = {"quick": 6000, "thorough": 300_000}
 WALL = {"quick": 45, "thorough": 1500}
-BATCH = {"quick": 25, "thorough": 300}
+BATCH = {"quick": 50, "thorough": 300}
 RULE = (
     "each case is one generated messaging history run on the real engine: queue/* = <=40 published messages, 1-4 "
     "consumers with per-attempt behaviours (ack / reject-requeue / reject-discard / silent), periodic polls, watchdog "
